@@ -536,6 +536,14 @@ func (t *tr) applyContract(con *Contract, ct *callTarget, haveRecv bool, recv Te
 		sc.where = cl.Where
 		t.assert(t.spec(cl.Expr, sc), "pre/"+short, cl.Label, pos, "precondition of "+ct.key+": "+cl.Text)
 	}
+	if t.spawnOnly {
+		// `go f(args)`: only the hand-over obligations; the spawned call's effects are not this goroutine's
+		out := make([]Term, ct.sig.Results().Len())
+		for i := range out {
+			out[i] = t.V.W.zero(ct.sig.Results().At(i).Type())
+		}
+		return out
+	}
 	// panics
 	var pcond []Term
 	for _, cl := range con.clauses("panics_if") {
